@@ -154,7 +154,7 @@ func cmdCheck(args []string) {
 		fatalf("no check for property %s", id)
 	}
 	t0 := time.Now()
-	timeout := 20
+	timeout := 30
 	coverTimeout := 1
 	if *tier == "thorough" {
 		timeout = 60
